@@ -157,6 +157,8 @@ def vis_api(place):
             f['Resp'].append(dict(name='parent', child_ref=typ))
         if w == 'ref_nested':
             f['Mid'].append(dict(name='target', ref=typ))
+        if w == 'ref_in_lro_resp':
+            f['LroResp'].append(dict(name='target', ref=typ))
         for k, fl in f.items():
             m = dict(name=k + R, fields=fl)
             if w == 'req_self' and k == 'Req':
@@ -641,7 +643,7 @@ def main(chk, args):
                 '(ResourcePath.emit.small/mid.cfg), every pattern of the grammar up to 6 variables with two probe '
                 'assignments (emit.wide, thorough), seeded simulation with 1..6 variables, values <= 3 characters over '
                 '{a, b, /, -, _, ~, .} minus the delimiters of the pattern, strings perturbed by delete/append/prepend/'
-                'substitute/insert; plus VisibleResources shapes (2 resources x 13 placements). non-trivial = at least one '
+                'substitute/insert; plus VisibleResources shapes (2 resources x 14 placements). non-trivial = at least one '
                 'variable and (a non-empty predicted dict or a foreign string); distinct by (pattern, concrete values, string)')
     for i in sorted(meta)[:2] + sorted(meta)[-3:]:
         c, o = meta[i], obs[i]
